@@ -154,6 +154,7 @@ using namespace opensmt::tokens;
   \\\"          { yyextra->insertBuf('"');                                       }
   \\\\          { yyextra->insertBuf('\\');                                      }
   [^\\\n\"]     { yyextra->insertBuf(yyget_text(yyscanner)[0]);                  }
+  \\            { yyextra->insertBuf('\\'); /* a backslash that escapes nothing stands for itself */ }
   \"            { yylval->str = strdup(yyextra->getBuf()); yyextra->clearBuf();
                     yy_pop_state(yyscanner); return TK_STR;                      }
   <<EOF>>       { printf("Syntax error at line %d: the input ends inside a string literal\n", yyget_lineno(yyscanner)); exit(1); }
